@@ -31,6 +31,22 @@ class Undecided(Exception):
     pass
 
 
+class Sym:
+    """A value the interpretation does not know, named after the variable
+    of the analysed function it comes from (`value` of the token loop)."""
+    def __init__(self, name):
+        self.name = name
+
+    def __eq__(self, o):
+        return isinstance(o, Sym) and o.name == self.name
+
+    def __hash__(self):
+        return hash(('Sym', self.name))
+
+    def __repr__(self):
+        return 'Sym({})'.format(self.name)
+
+
 class Interp:
     def __init__(self, repo, flow, max_depth=4):
         self.repo = repo
@@ -39,6 +55,25 @@ class Interp:
 
     def value(self, module, expr, env):
         return const_eval(self.repo, module, expr, None, env)
+
+    def sym_value(self, m, expr, env):
+        """Like value(), with unknown names kept as symbols and tuples /
+        conditional expressions evaluated piecewise."""
+        v = self.value(m, expr, env)
+        if v is not UNKNOWN:
+            return v
+        if isinstance(expr, ast.Name):
+            if expr.id in env:
+                return env[expr.id]
+            return Sym(env.get('#sym:' + expr.id, expr.id))
+        if isinstance(expr, ast.Tuple):
+            return tuple(self.sym_value(m, x, env) for x in expr.elts)
+        if isinstance(expr, ast.IfExp):
+            t = fold_test(self.repo, m, expr.test, None, env)
+            if t is not None:
+                return self.sym_value(m, expr.body if t else expr.orelse,
+                                      env)
+        return UNKNOWN
 
     def run(self, fn, env, depth=0):
         acts = []
@@ -71,8 +106,10 @@ class Interp:
         for i, a in enumerate(call.args):
             if isinstance(a, ast.Starred) or i >= len(pos):
                 break
-            v = self.value(fn.module, a, env)
-            if v is not UNKNOWN:
+            v = self.sym_value(fn.module, a, env)
+            if isinstance(v, Sym):
+                cenv['#sym:' + pos[i]] = v.name
+            elif v is not UNKNOWN:
                 cenv[pos[i]] = v
             elif isinstance(a, ast.Name):
                 cenv['#sym:' + pos[i]] = a.id
@@ -123,10 +160,10 @@ class Interp:
                         return ('raise',)
                     if done:
                         return ('return', v)
-                v = self.value(m, st.value, env)
-                if v is UNKNOWN and isinstance(st.value, ast.Name):
-                    v = env.get(st.value.id, UNKNOWN)
+                v = self.sym_value(m, st.value, env)
                 return ('return', v)
+            if isinstance(st, ast.Continue):
+                return ('continue',)
             if isinstance(st, ast.Raise):
                 name = ''
                 if isinstance(st.exc, ast.Call):
@@ -146,9 +183,9 @@ class Interp:
                     except _Raised:
                         return ('raise',)
                     if not done:
-                        v = self.value(m, st.value, env)
+                        v = self.sym_value(m, st.value, env)
                 else:
-                    v = self.value(m, st.value, env)
+                    v = self.sym_value(m, st.value, env)
                 for t in tgts:
                     if isinstance(t, ast.Tuple) and all(
                             isinstance(x, ast.Name) for x in t.elts):
@@ -178,7 +215,9 @@ class Interp:
                 c = st.value
                 if Q.callee_attr(c) == 'write' and c.args:
                     a = c.args[0]
-                    v = self.value(m, a, env)
+                    v = self.sym_value(m, a, env)
+                    if isinstance(v, Sym):
+                        v = v.name
                     acts.append(('write', v if v is not UNKNOWN
                                  else unparse(a)))
                     continue
